@@ -184,6 +184,15 @@ def step (s : St) (toks : List String) : St × String :=
          if l.length % 2 != 0 then (s, "bad-op")
          else (s, toString (Sif.Spec.C18.splitObservedOK (ps.map (fun p => (p.1 : Rat))) (ps.map (·.2))))
        | none => (s, "bad-op"))
+  | "chk" :: "c18.l1bucket" :: _tag :: lock :: nch :: rest =>
+      (match parseNat lock, parseNat nch with
+       | some lock, some nch =>
+         match parseChanges (rest.take (4 * nch)) [], parseDump (rest.drop (4 * nch)) with
+         | some ch, some pre =>
+           let pre := { pre with params := { pre.params with rewardsLockPeriod := lock } }
+           (s, toString (Sif.Spec.C18.epochSharesOK pre ch))
+         | _, _ => (s, "bad-op")
+       | _, _ => (s, "bad-op"))
   | "chk" :: "c18.recipients" :: _tag :: hook :: lock :: nch :: rest =>
       (match parseNat lock, parseNat nch with
        | some lock, some nch =>
